@@ -169,7 +169,8 @@ def d1_steps(ctx):
             classes = {}
             n_ok = 0
             cells = 0
-            for M, n, D in [(M_, n_, D_) for D_ in (15, 31) for M_ in range(1, 13) for n_ in range(1, 13)]:
+            deep = ctx.tier == 'thorough' and ctx.cfg_name == 'dev'
+            for M, n, D in [(M_, n_, D_) for D_ in ((1, 15, 28, 29, 30, 31) if deep else (15, 31)) for M_ in range(1, 13) for n_ in range(1, 25 if (deep and step == 'year') else 13)]:
                 if True:
                     if step == 'year':
                         want = (Y + sign * n, M, D)
